@@ -3,11 +3,13 @@
   Property theorems only (model: G9.SrvLife for goroutines and queues). What the model can
   carry: after `close` nothing on the connection can block — every call of Respond runs to
   its end without the writer — and nothing new is accepted or written. That ConnClosed is
-  reported once, that every remaining fid is reported destroyed and that no goroutine or
-  descriptor outlives the connection are observed on the implementation by the
-  correspondence (goroutine and descriptor census, FidDestroy log).
+  reported once and that no goroutine or descriptor outlives the connection are observed on the
+  implementation by the correspondence (goroutine and descriptor census).
+  The fids are M6 (G9.FidLife): under every interleaving of requests still executing, DecRef,
+  destroy() and Conn.close, every fid object is reported destroyed exactly once.
 -/
 import G9Proofs.Lemmas.LifeReach
+import G9Proofs.Lemmas.FidLife
 namespace G9.C11
 open G9 G9.Life
 
@@ -64,5 +66,88 @@ theorem worker_never_stuck_after_close (s : LS) (r : Nat) (hr : r < s.n) (e : Ev
 example : ((LS.init 0).run [.recv 5 none, .check 0, .dispatch 0, .close, .answer 0, .mark 0, .post 0, .queue 0,
     .unlink 0, .next 0, .flushes 0, .implReturn 0, .procEnd 0]).map
     (fun s => (s.wire, s.reqout, (s.req 0).wpc, s.closed)) = some ([], [], .ended, true) := by decide
+
+
+/-! ### the fids of the connection (model: G9.FidLife) -/
+section fids
+open G9.FidLife
+
+/-- At every point of every schedule, the file server has been told at most once that a fid
+    object is destroyed. -/
+theorem fid_destroyed_at_most_once (es : List FEv) (s : FS) (h : FS.init.run es = some s) (o : Nat)
+    (ho : o < s.n) : (s.obj o).nd ≤ 1 := by
+  have h0 := (inv_run _ _ es inv_init h).objs o ho
+  have := h0.once
+  split at this <;> omega
+
+/-- Once the disconnect has run to its end — Conn.close has visited its copy of the table, every
+    request that was executing has released what it held, every DecRef and destroy() has
+    returned — every fid object ever created on the connection, valid at the disconnect, being
+    created at the disconnect or created afterwards by a request still running, has been reported
+    destroyed exactly once. -/
+theorem disconnect_destroys_every_fid (es : List FEv) (s : FS) (h : FS.init.run es = some s)
+    (hq : s.quiescent) (o : Nat) (ho : o < s.n) : (s.obj o).nd = 1 := by
+  have h0 := (inv_run _ _ es inv_init h).objs o ho
+  obtain ⟨hsnap, hall⟩ := hq
+  obtain ⟨q1, q2, q3, q4⟩ := hall o ho
+  have hd : (s.obj o).destroyed = true := by
+    rcases h0.cov with c | c | c | c | c
+    · exact c
+    · omega
+    · omega
+    · omega
+    · rcases h0.tblSnap c [] hsnap with m | m | m
+      · cases m
+      · omega
+      · exact m
+  have := h0.once
+  rw [hd] at this
+  simp only [if_true] at this
+  omega
+
+/-- A fid that is still being created (its Tattach, Tauth or Twalk has not finished) is never
+    reported destroyed under the implementation's feet, disconnect or not, and stays in the table. -/
+theorem no_destroy_while_being_created (es : List FEv) (s : FS) (h : FS.init.run es = some s) (o : Nat)
+    (ho : o < s.n) (hp : (s.obj o).pending = true) (hh : 1 ≤ (s.obj o).holds) :
+    (s.obj o).nd = 0 ∧ (s.obj o).calls = 0 ∧ (s.obj o).destroyed = false ∧ s.inpool o := by
+  have h0 := (inv_run _ _ es inv_init h).objs o ho
+  obtain ⟨_, _, c, d⟩ := h0.pendClean hp hh
+  have := h0.once
+  rw [c] at this
+  simp only [Bool.false_eq_true, if_false] at this
+  exact ⟨by omega, by omega, c, d⟩
+
+/-- A valid fid (the table holds its reference) is in the table and not reported destroyed as
+    long as the connection has not been torn down. -/
+theorem valid_fid_alive_while_open (es : List FEv) (s : FS) (h : FS.init.run es = some s) (o : Nat)
+    (ho : o < s.n) (ht : (s.obj o).tbl = true) (hs : s.snap = none) :
+    s.inpool o ∧ (s.obj o).nd = 0 ∧ (s.obj o).destroyed = false := by
+  have h0 := (inv_run _ _ es inv_init h).objs o ho
+  obtain ⟨a, _, c⟩ := h0.tblOpen ht hs
+  have := h0.once
+  rw [c] at this
+  simp only [Bool.false_eq_true, if_false] at this
+  exact ⟨a, by omega, c⟩
+
+/-- the reference count is what the owners account for: requests' references plus the table's -/
+theorem refcount_is_owners (es : List FEv) (s : FS) (h : FS.init.run es = some s) (o : Nat) (ho : o < s.n) :
+    (s.obj o).ref = ((s.obj o).holds : Int) + (if (s.obj o).tbl then 1 else 0) :=
+  ((inv_run _ _ es inv_init h).objs o ho).refEq
+
+/-! non-vacuity: a fid is created and retained; a request is using it when the client disconnects;
+    Conn.close destroys it, the request's release afterwards does not destroy it again; the end
+    state is quiescent. -/
+def exSched : List FEv :=
+  [.new 5, .retain 0, .dec 0 false, .look 5 (some 0), .get 0, .closeDone, .snapshot [0], .visit, .dstr 0, .call 0,
+   .dec 0 false]
+
+example : (FS.init.run exSched).map (fun s => ((s.obj 0).nd, (s.obj 0).ref, (s.obj 0).holds, s.snap, s.n)) =
+    some (1, 1, 0, some [], 1) := by decide
+
+instance (s : FS) : Decidable s.quiescent := by unfold FS.quiescent; infer_instance
+
+example : (FS.init.run exSched).all (fun s => decide s.quiescent) = true := by decide
+
+end fids
 
 end G9.C11
